@@ -312,6 +312,8 @@ class ElectionProfile:
             raise ElectionProfileError('bad blt file: unexpected end-of-file')
         except ValueError as err:   # int() refuses digit strings beyond sys.get_int_max_str_digits()
             raise ElectionProfileError('bad blt file: %s' % err)
+        except OverflowError as err:    # candidate ID too large for the ranking array (absurd candidate count)
+            raise ElectionProfileError('bad blt file: %s' % err)
 
     def _bltParse(self, data):
         '''
